@@ -156,9 +156,9 @@ type wafHandle struct {
 	// are switched off so that the harness itself cannot race.
 	Concurrent bool
 	WAF        coraza.WAF
-	ErrCB    []cbRec      // error callback invocations
-	DebugBuf bytes.Buffer // debug log at Error level
-	Rec      *recWriter   // set by runTx when the configuration uses SecAuditLogType verifrec
+	ErrCB      []cbRec      // error callback invocations
+	DebugBuf   bytes.Buffer // debug log at Error level
+	Rec        *recWriter   // set by runTx when the configuration uses SecAuditLogType verifrec
 }
 
 type cbRec struct {
